@@ -24,4 +24,6 @@ MUTANTS = [
       "        sys.setrecursionlimit(max(sys.getrecursionlimit(), max_recursion_depth + GAP_BETWEEN_PYTHONS_AND_PREPROCESSOR_MACRO_RECURSION_DEPTH))", 'C13.RECLIMIT'),
     M('C13', 'label ids from object identity', PRE, "        self.labels[f'{wflip_start_label}{self.curr_segment_index}'] = self.curr_address", "        self.labels[f'{wflip_start_label}{id(self)}'] = self.curr_address", 'C13.NONDET'),
     M('C13', 'EQ snapshot copies the constants with .copy()', 'flipjump/assembler/fj_parser.py', "        dict(parser.consts),\n        dict(parser.macros),", "        parser.consts.copy(),\n        dict(parser.macros),", None),
+    M('C13', 'a shared module-level dict is returned as the parameter dictionary (seed C13_4)', PRE, "    params_dict: Dict[str, Expr] = dict(zip(current_macro.params, args))\n", "    if not current_macro.params and not current_macro.local_params:\n        return NO_PARAMS\n    params_dict: Dict[str, Expr] = dict(zip(current_macro.params, args))\n", 'C13.GLOBALS', also=[(PRE, "wflip_start_label = ':wflip_area_start:'", "NO_PARAMS: Dict[str, Expr] = {}\nwflip_start_label = ':wflip_area_start:'")]),
+    M('C13', 'EQ a module-level constant tuple of reserved prefixes is only iterated', PRE, "wflip_start_label = ':wflip_area_start:'", "_RESERVED_PREFIXES = [':wflip_area_start:']\nwflip_start_label = _RESERVED_PREFIXES[0]", None),
 ]
